@@ -88,6 +88,7 @@ struct Task {
   bool api_nonblocking = false;
   bool parked_in_try = false;
   int api_obj = -1;
+  uint64_t syscalls = 0, api_sys_base = 0;   // simulated system calls made by this task / at the start of its current bracket
   // simulated pthread state
   std::map<int, void *> tls;
   bool detached = false, joined = false, is_thread = false, started = false;
@@ -112,6 +113,7 @@ void wake(Task *t);                     // blocked -> runnable
 void wait_all_others();                 // root: block until every other task finished/dead
 void kill_task(Task *t);                // abandon a task (process kill)
 [[noreturn]] void exit_task();          // current task finishes and never returns
+[[noreturn]] void die_current();        // current task is killed (process kill) and never returns
 uint64_t now_seq();                     // global event sequence number
 uint64_t steps();
 
